@@ -12,7 +12,7 @@ import random
 
 import numpy as np
 
-from .. import core, geo
+from .. import argguard, core, geo, inputforms
 
 ANG_TOL_DEG = 2e-4       # DESIGN section 6: angles 2e-4 degree
 VEC_TOL = 1e-9           # exact layer: snap tolerance
@@ -26,6 +26,7 @@ def cfg(pairs, batches, normals, mode, invs=INVS):
     lines = ["SPECIFICATION Spec", "CONSTANTS", " Pairs <- %s" % pairs, " Batches <- %s" % batches,
              " NormalVecs <- %s" % normals, ' EmitMode = "%s"' % mode]
     lines += ["INVARIANT %s" % i for i in invs]
+    lines += ["PROPERTY C06_InputsUntouched", "PROPERTY C06_ResultsPersist"]
     if mode == "tr":
         lines.append("ACTION_CONSTRAINT EmitTR")
     return "\n".join(lines) + "\n"
@@ -76,13 +77,13 @@ def conv_euler_for_code(conv, code, rng):
     return [90.0 * x + rng.choice([0.0, 0.0, 0.0, 360.0, -360.0]) for x in t]
 
 
-def measure_conv(ea, eb, conv):
+def measure_conv(ea, eb, conv, storage="c_float64"):
     """The entry points that take Euler arrays with a `convention` option."""
     from cryocat import geom
     ea = np.asarray(ea, dtype=float).reshape(-1, 3)
     eb = np.asarray(eb, dtype=float).reshape(-1, 3)
-    A = ea[0].copy() if ea.shape[0] == 1 else ea.copy()
-    B = eb[0].copy() if eb.shape[0] == 1 else eb.copy()
+    A = inputforms.store(ea[0] if ea.shape[0] == 1 else ea, storage)
+    B = inputforms.store(eb[0] if eb.shape[0] == 1 else eb, storage)
     ci = geom.cone_inplane_distance(A, B, convention=conv)
     return {"angular_distance": as1d(geom.angular_distance(A, B, convention=conv)[0]),
             "cone_inplane_distance.cone": as1d(ci[0]), "cone_inplane_distance.inplane": as1d(ci[1])}
@@ -91,7 +92,7 @@ def measure_conv(ea, eb, conv):
 def run_l2_conv(ctx, case):
     """case: {kind: l2_conv, conv, ea, eb, codes, expected}: the same cube pairs described in another Euler convention"""
     core.call_guarded(disturb, case.get("disturb"))
-    obs, err = core.call_guarded(measure_conv, case["ea"], case["eb"], case["conv"])
+    obs, err = core.call_guarded(measure_conv, case["ea"], case["eb"], case["conv"], case.get("storage", "c_float64"))
     classes = ["equal" if e["same"] else "cube" for e in case["expected"]]
     if err is not None:
         ctx.fail("call_raises", err, case, {"op": "distances", "pair": classes[0], "nan": False, "convention": case["conv"]})
@@ -154,42 +155,84 @@ def pick_disturb(rng, p=0.5):
 
 
 # ---- L2: pairs ---------------------------------------------------------------------------------------
-def measure_pairs(ea, eb, form):
-    """All five distance entry points on (batches of) pairs.  ea, eb: (n,3) Euler angles."""
+def _quat(r):
+    return np.array(r.as_quat(), dtype=float, copy=True)
+
+
+def measure_pairs(ea, eb, form, storage="c_float64", single="1d"):
+    """All five distance entry points on (batches of) pairs.  ea, eb: (n,3) Euler angles.
+    form "array": Euler arrays stored as `storage` (inputforms.FORMS; a single pair as a 1-D triple or a (1,3) batch of
+    one); form "rot": Rotation objects.  The SAME argument objects go to every call; out["_frame"] lists what a caller
+    could observe besides the results: arguments changed, or an earlier result changed by a later call."""
     from cryocat import geom
     ea = np.asarray(ea, dtype=float).reshape(-1, 3)
     eb = np.asarray(eb, dtype=float).reshape(-1, 3)
+    one = ea.shape[0] == 1 and single == "1d"
     if form == "array":
-        # a single pair is handed over as 1-D triples, a batch as (n,3)
-        A = ea[0].copy() if ea.shape[0] == 1 else ea.copy()
-        B = eb[0].copy() if eb.shape[0] == 1 else eb.copy()
+        A = inputforms.store(ea[0] if one else ea, storage)
+        B = inputforms.store(eb[0] if one else eb, storage)
     else:
-        A = rot_of(ea[0] if ea.shape[0] == 1 else ea)
-        B = rot_of(eb[0] if eb.shape[0] == 1 else eb)
-    RA = A if form != "array" else rot_of(ea[0] if ea.shape[0] == 1 else ea)
-    RB = B if form != "array" else rot_of(eb[0] if eb.shape[0] == 1 else eb)
-    out = {}
-    out["angular_distance"] = as1d(geom.angular_distance(A, B)[0])
+        A = rot_of(ea[0] if one else ea)
+        B = rot_of(eb[0] if one else eb)
+    RA = A if form != "array" else rot_of(ea[0] if one else ea)
+    RB = B if form != "array" else rot_of(eb[0] if one else eb)
+    guard = argguard.Guard(A=A, B=B) if form == "array" else None
+    quats = [_quat(r) for r in (RA, RB)]
+    out, raw = {}, {}
+
+    def keep(key, value):
+        raw[key] = (value, np.array(value, dtype=float, copy=True))
+        out[key] = as1d(value)
+
+    keep("angular_distance", geom.angular_distance(A, B)[0])
     ci = geom.cone_inplane_distance(A, B)
-    out["cone_inplane_distance.cone"] = as1d(ci[0])
-    out["cone_inplane_distance.inplane"] = as1d(ci[1])
+    keep("cone_inplane_distance.cone", ci[0])
+    keep("cone_inplane_distance.inplane", ci[1])
     cr = geom.compare_rotations(A, B)
-    out["compare_rotations.ang"] = as1d(cr[0])
-    out["compare_rotations.cone"] = as1d(cr[1])
-    out["compare_rotations.inplane"] = as1d(cr[2])
-    out["compare_rotations[angular_distance]"] = as1d(geom.compare_rotations(A, B, rotation_type="angular_distance"))
-    out["compare_rotations[cone_distance]"] = as1d(geom.compare_rotations(A, B, rotation_type="cone_distance"))
-    out["compare_rotations[in_plane_distance]"] = as1d(geom.compare_rotations(A, B, rotation_type="in_plane_distance"))
+    keep("compare_rotations.ang", cr[0])
+    keep("compare_rotations.cone", cr[1])
+    keep("compare_rotations.inplane", cr[2])
+    keep("compare_rotations[angular_distance]", geom.compare_rotations(A, B, rotation_type="angular_distance"))
+    keep("compare_rotations[cone_distance]", geom.compare_rotations(A, B, rotation_type="cone_distance"))
+    keep("compare_rotations[in_plane_distance]", geom.compare_rotations(A, B, rotation_type="in_plane_distance"))
+    keep("compare_rotations(c_symmetry=1)", geom.compare_rotations(A, B, c_symmetry=1, rotation_type="all")[0])
+    if form == "array" and storage not in ("int64",):
+        # the same orientations in radians (degrees=False): both distances are reported in degrees all the same
+        Ar = inputforms.store(np.radians(ea[0] if one else ea), "c_float64" if storage == "float32" else storage)
+        Br = inputforms.store(np.radians(eb[0] if one else eb), "c_float64" if storage == "float32" else storage)
+        keep("angular_distance[rad]", geom.angular_distance(Ar, Br, degrees=False)[0])
+        cir = geom.cone_inplane_distance(Ar, Br, convention="zxz", degrees=False)
+        keep("cone_inplane_distance.cone[rad]", cir[0])
+        # with degrees=False the in-plane distance comes back in radians: [0, pi], 0 for equal orientations
+        keep("cone_inplane_distance.inplane[rad]", np.degrees(np.asarray(cir[1], dtype=float)))
+        keep("cone_inplane_distance.inplane[rad,c_symmetry=1]",
+             np.degrees(np.asarray(geom.cone_inplane_distance(Ar, Br, degrees=False, c_symmetry=1)[1], dtype=float)))
     # cone_distance / inplane_distance take Rotation objects only
-    out["cone_distance"] = as1d(geom.cone_distance(RA, RB))
-    out["inplane_distance"] = as1d(geom.inplane_distance(RA, RB))
+    keep("cone_distance", geom.cone_distance(RA, RB))
+    keep("inplane_distance", geom.inplane_distance(RA, RB))
+    keep("inplane_distance(defaults spelled)", geom.inplane_distance(RA, RB, convention="zxz", degrees=True, c_symmetry=1))
+    keep("inplane_distance[rad]", np.degrees(np.asarray(geom.inplane_distance(RA, RB, degrees=False), dtype=float)))
+    frame = []
+    if guard is not None and guard.changed():
+        frame.append(("C06_InputsUntouched", guard.changed()))
+    for r, q in zip((RA, RB), quats):
+        if not np.array_equal(_quat(r), q):
+            frame.append(("C06_InputsUntouched", "a Rotation argument changed"))
+    for key, (value, snap) in raw.items():
+        cur = np.asarray(value, dtype=float)
+        if cur.shape != snap.shape or not np.array_equal(cur, snap, equal_nan=True):
+            frame.append(("C06_ResultsPersist", "the result of %s changed after later calls" % key))
+    out["_frame"] = frame
     return out
 
 
-ANG_KEYS = ["angular_distance", "compare_rotations.ang", "compare_rotations[angular_distance]"]
-CONE_KEYS = ["cone_distance", "cone_inplane_distance.cone", "compare_rotations.cone", "compare_rotations[cone_distance]"]
+ANG_KEYS = ["angular_distance", "compare_rotations.ang", "compare_rotations[angular_distance]",
+            "compare_rotations(c_symmetry=1)", "angular_distance[rad]"]
+CONE_KEYS = ["cone_distance", "cone_inplane_distance.cone", "compare_rotations.cone", "compare_rotations[cone_distance]",
+             "cone_inplane_distance.cone[rad]"]
 IP_KEYS = ["inplane_distance", "cone_inplane_distance.inplane", "compare_rotations.inplane",
-           "compare_rotations[in_plane_distance]"]
+           "compare_rotations[in_plane_distance]", "inplane_distance(defaults spelled)", "inplane_distance[rad]",
+           "cone_inplane_distance.inplane[rad]", "cone_inplane_distance.inplane[rad,c_symmetry=1]"]
 
 
 def judge_pairs(ctx, obs, expected, case, pair_classes, keys=None):
@@ -199,8 +242,10 @@ def judge_pairs(ctx, obs, expected, case, pair_classes, keys=None):
     ka, kc, ki = keys or (ANG_KEYS, CONE_KEYS, IP_KEYS)
     for keyset, what in ((ka, "ang"), (kc, "cone"), (ki, "inplane")):
         for key in keyset:
+            if key not in obs:
+                continue
             v = obs[key]
-            op = key.split(".")[0].split("[")[0]
+            op = key.split(".")[0].split("[")[0].split("(")[0]
             if v.shape[0] != n:
                 ctx.fail("C06_OnePerPair", "%s returned %d values for %d pairs" % (key, v.shape[0], n), case,
                          {"op": op, "pair": "batch", "nan": False})
@@ -235,30 +280,51 @@ def run_l2_pairs(ctx, case):
     _, derr = core.call_guarded(disturb, case.get("disturb"))
     if derr is not None:
         ctx.fail("call_raises", derr, case, {"op": "disturb%d" % (case["disturb"] % N_DISTURB), "pair": "", "nan": False})
-    obs, err = core.call_guarded(measure_pairs, case["ea"], case["eb"], case["form"])
+    obs, err = core.call_guarded(measure_pairs, case["ea"], case["eb"], case["form"], case.get("storage", "c_float64"),
+                                 case.get("single", "1d"))
     classes = ["equal" if e["same"] else "cube" for e in case["expected"]]
     if err is not None:
         ctx.fail("call_raises", err, case, {"op": "distances", "pair": classes[0], "nan": False})
     else:
         judge_pairs(ctx, obs, case["expected"], case, classes)
+        for clause, why in obs["_frame"]:
+            ctx.fail(clause, why, case, {"op": "distances", "pair": classes[0], "nan": False, "storage": case.get("storage", "")})
     ctx.ran(case)
 
 
 # ---- L2: batches -> normals -----------------------------------------------------------------------------
 def run_l2_batch(ctx, case):
-    """case: {kind: l2_batch, euler: [[..]], codes: [..], expected: [[..]]}"""
+    """case: {kind: l2_batch, euler: [[..]], codes: [..], expected: [[..]], storage, plot}: Euler batch -> normals through
+    the three entry points; the Euler array is stored as `storage` (also list / tuple), the SAME object goes to all calls;
+    with plot the plotting options are switched on (Agg backend) - what is returned must not depend on them"""
     from cryocat import geom
     e = np.asarray(case["euler"], dtype=float).reshape(-1, 3)
     exp = np.asarray(case["expected"], dtype=float).reshape(-1, 3)
-    calls = [("euler_angles_to_normals", lambda: geom.euler_angles_to_normals(e.copy())),
-             ("visualize_angles", lambda: geom.visualize_angles(e.copy(), plot_rotations=False)),
-             ("visualize_rotations", lambda: geom.visualize_rotations(rot_of(e), plot_rotations=False))]
+    E = inputforms.store(e, case.get("storage", "c_float64"))
+    rots = rot_of(e)
+    guard = argguard.Guard(angles=E)
+    q0 = _quat(rots)
+    plot = bool(case.get("plot"))
+    cmap = np.linspace(0.0, 1.0, e.shape[0])
+    calls = [("euler_angles_to_normals", lambda: geom.euler_angles_to_normals(E)),
+             ("visualize_angles", lambda: geom.visualize_angles(E, plot_rotations=False)),
+             ("visualize_rotations", lambda: geom.visualize_rotations(rots, plot_rotations=False))]
+    if plot:
+        calls += [("visualize_angles", lambda: geom.visualize_angles(E)),                                   # plots by default
+                  ("visualize_rotations", lambda: geom.visualize_rotations(rots, plot_rotations=True, color_map=cmap, marker_size=3)),
+                  ("visualize_angles", lambda: geom.visualize_angles(E, plot_rotations=True, color_map="red")),
+                  ("visualize_rotations", lambda: geom.visualize_rotations(rots))]
+    earlier = []
     for name, fn in calls:
         got, err = core.call_guarded(fn)
-        sig = {"op": name, "batch": "one" if e.shape[0] == 1 else "many"}
+        sig = {"op": name, "batch": "one" if e.shape[0] == 1 else "many", "plot": plot, "storage": case.get("storage", "c_float64")}
         if err is not None:
             ctx.fail("call_raises", err, case, sig)
             continue
+        why = guard.changed() or (None if np.array_equal(_quat(rots), q0) else "Rotation argument changed")
+        if why:
+            ctx.fail("C06_InputsUntouched", "%s: %s" % (name, why), case, sig)
+        raw = got
         got = np.asarray(got, dtype=float)
         if got.shape != exp.shape:
             ctx.fail("C06_NormalsAreUnitZImages", "%s returned shape %s for %d orientations" % (name, got.shape, e.shape[0]),
@@ -267,6 +333,15 @@ def run_l2_batch(ctx, case):
             k = int(np.argmax(np.max(np.abs(got - exp), axis=1)))
             ctx.fail("C06_NormalsAreUnitZImages", "%s: normal %d is %s, the specification says %s" % (
                 name, k, got[k].tolist(), exp[k].tolist()), case, sig)
+        else:
+            earlier.append((name, raw, got.copy()))
+    if plot:
+        import matplotlib.pyplot as plt
+        plt.close("all")
+    for name, raw, snap in earlier:
+        if not np.array_equal(np.asarray(raw, dtype=float), snap):
+            ctx.fail("C06_ResultsPersist", "the normals returned by %s changed after later calls" % name, case,
+                     {"op": name, "batch": "many", "plot": plot})
     ctx.ran(case)
 
 
@@ -286,21 +361,29 @@ def run_l2_normals(ctx, case):
     v = np.asarray(case["vecs"], dtype=float).reshape(-1, 3) / geo.U
     form = case["form"]
     if form == "array":
-        arg = v.copy()
+        arg = inputforms.store(v, case.get("storage", "c_float64"))
     elif form == "frame":
-        arg = pd.DataFrame(v.copy(), columns=["x", "y", "z"])
+        # a table that carries the normals in its x, y, z columns: any row labels (permuted, gapped, sliced out of a larger
+        # table), further columns, any column order - the values of x, y, z are what counts
+        arg = inputforms.frame(v, ["x", "y", "z"], case.get("frame_k", 0))
     else:
         # the same directions stored as integers (the 1/8-unit vectors themselves): int64 / int32 arrays, integer columns
         iv = np.asarray(case["vecs"], dtype=np.int32 if form == "int32" else np.int64).reshape(-1, 3)
         arg = pd.DataFrame(iv.copy(), columns=["x", "y", "z"]) if form == "frame_int" else iv.copy()
+    # float32-stored normals are normalised in float32: the angles carry that precision (DESIGN section 6: 1e-4 relative)
+    tol = 2e-6 if (form == "array" and case.get("storage") == "float32") else VEC_TOL
     order = case.get("order", "zxz")
+    guard = argguard.Guard(input_normals=arg)
     np.random.seed(case["npseed"])
     if order == "zxz" and case["npseed"] % 2 == 0:
         got, err = core.call_guarded(geom.normals_to_euler_angles, arg)           # default order
     else:
         got, err = core.call_guarded(geom.normals_to_euler_angles, arg, output_order=order)
     cls = normal_class(case["vecs"][0]) if len(case["vecs"]) == 1 else "batch"
-    sig = {"op": "normals_to_euler_angles", "normal": cls, "order": order, "stored": "int" if "int" in form else "float"}
+    sig = {"op": "normals_to_euler_angles", "normal": cls, "order": order, "stored": "int" if "int" in form else "float",
+           "table": case.get("frame_k", 0) % 12 if form == "frame" else case.get("storage", "")}
+    if guard.changed():
+        ctx.fail("C06_InputsUntouched", guard.changed(), case, sig)
     if err is not None:
         ctx.fail("call_raises", err, case, sig)
         ctx.ran(case)
@@ -320,7 +403,7 @@ def run_l2_normals(ctx, case):
             ctx.fail("C06_EulerFromNormalHasThatZAxis", "angles %s for normal %s" % (got[k].tolist(), v[k].tolist()), case, sigk)
             continue
         z = geo.zxz_matrix(*got[k])[:, 2]
-        if np.max(np.abs(z - want)) > VEC_TOL:
+        if np.max(np.abs(z - want)) > tol:
             ctx.fail("C06_EulerFromNormalHasThatZAxis", "normal %s -> angles %s whose z-axis is %s, the specification "
                      "says %s/%d" % (v[k].tolist(), got[k].tolist(), z.tolist(), e["num"], e["den"]), case, sigk)
     # and back through euler_angles_to_normals (round trip inside the library)
@@ -331,7 +414,7 @@ def run_l2_normals(ctx, case):
     else:
         back = np.asarray(back, dtype=float)
         want = np.array([np.asarray(e["num"], dtype=float) / float(e["den"]) for e in case["expected"]])
-        if back.shape != want.shape or not finite(back) or np.max(np.abs(back - want)) > VEC_TOL:
+        if back.shape != want.shape or not finite(back) or np.max(np.abs(back - want)) > tol:
             ctx.fail("C06_NormalsAreUnitZImages", "normals -> angles -> normals does not return the normalised normals "
                      "(%s)" % (back[:3].tolist(),), case, sig2)
     ctx.ran(case)
@@ -443,7 +526,7 @@ def batch_trace(case):
     ea, eb = np.asarray(case["a"], dtype=float), np.asarray(case["b"], dtype=float)
     n = ea.shape[0]
     conv = case.get("conv")
-    ev = {"kind": "batch", "n": n, "conv": conv or "zxz", "gt": [], "zgt": [], "ang": [], "cone": [], "ip": []}
+    ev = {"kind": "batch", "n": n, "conv": conv or "zxz", "gt": [], "zgt": [], "ang": [], "cone": [], "ip": [], "frame_ok": True}
     for i in range(n):
         ma = conv_matrix(conv, ea[i]) if conv else geo.zxz_matrix(*ea[i])
         mb = conv_matrix(conv, eb[i]) if conv else geo.zxz_matrix(*eb[i])
@@ -455,11 +538,13 @@ def batch_trace(case):
         ev["cone"] = [[q4(x) for x in obs["cone_inplane_distance.cone"]]]
         ev["ip"] = [[q4(x) for x in obs["cone_inplane_distance.inplane"]]]
         return [ev]
+    ev["frame_ok"] = True
     for form in ("array", "rot"):
-        obs = measure_pairs(ea, eb, form)
-        ev["ang"] += [[q4(x) for x in obs[k]] for k in ANG_KEYS]
-        ev["cone"] += [[q4(x) for x in obs[k]] for k in CONE_KEYS]
-        ev["ip"] += [[q4(x) for x in obs[k]] for k in IP_KEYS]
+        obs = measure_pairs(ea, eb, form, case.get("storage", "c_float64"), case.get("single", "1d"))
+        ev["ang"] += [[q4(x) for x in obs[k]] for k in ANG_KEYS if k in obs]
+        ev["cone"] += [[q4(x) for x in obs[k]] for k in CONE_KEYS if k in obs]
+        ev["ip"] += [[q4(x) for x in obs[k]] for k in IP_KEYS if k in obs]
+        ev["frame_ok"] = ev["frame_ok"] and not obs["_frame"]
     return [ev]
 
 
@@ -605,8 +690,7 @@ def normals_trace(case):
         else:
             arg = v.copy()
         if stored.startswith("frame"):
-            import pandas as pd
-            arg = pd.DataFrame(arg, columns=["x", "y", "z"])
+            arg = inputforms.frame(arg, ["x", "y", "z"], case["npseed"] % 1200)
         ang = np.asarray(geom.normals_to_euler_angles(arg, output_order=order), dtype=float)
         ev2 = {"kind": "tonormal", "order": order, "stored": case.get("stored", "float"), "n": int(v.shape[0]), "rows": int(ang.shape[0]) if ang.ndim == 2 else -1,
                "cols": int(ang.shape[1]) if ang.ndim == 2 else -1, "dev": []}
@@ -770,7 +854,8 @@ def run(ctx):
             ea = geo.euler_for_code(t["inp"]["a"], rng if r else None)
             eb = geo.euler_for_code(t["inp"]["b"], rng if r else None)
             for form in ("array", "rot"):
-                run_l2_pairs(ctx, {"kind": "l2_pair", "form": form, "disturb": pick_disturb(rng, 0.3), "ea": [ea], "eb": [eb],
+                run_l2_pairs(ctx, {"kind": "l2_pair", "form": form, "disturb": pick_disturb(rng, 0.3),
+                               "storage": rng.choice(inputforms.FORMS[:6]), "single": rng.choice(["1d", "batch1"]), "ea": [ea], "eb": [eb],
                                    "codes": [[t["inp"]["a"], t["inp"]["b"]]], "expected": [t["out"]]})
     # ... and all 576 in one call (batch semantics: one value per pair)
     for r in range(ctx.pick(2, 10)):
@@ -779,6 +864,7 @@ def run(ctx):
         sel = [pairs[i] for i in order]
         for form in ("array", "rot"):
             run_l2_pairs(ctx, {"kind": "l2_pair", "form": form, "disturb": pick_disturb(rng, 0.3),
+                               "storage": rng.choice(inputforms.FORMS[:6]), "single": rng.choice(["1d", "batch1"]),
                                "ea": [geo.euler_for_code(t["inp"]["a"], rng) for t in sel],
                                "eb": [geo.euler_for_code(t["inp"]["b"], rng) for t in sel],
                                "codes": [[t["inp"]["a"], t["inp"]["b"]] for t in sel],
@@ -788,6 +874,7 @@ def run(ctx):
         sel = [pairs[rng.randrange(len(pairs))] for _ in range(n)]
         for form in ("array", "rot"):
             run_l2_pairs(ctx, {"kind": "l2_pair", "form": form, "disturb": pick_disturb(rng, 0.3),
+                               "storage": rng.choice(inputforms.FORMS[:6]), "single": rng.choice(["1d", "batch1"]),
                                "ea": [geo.euler_for_code(t["inp"]["a"], rng) for t in sel],
                                "eb": [geo.euler_for_code(t["inp"]["b"], rng) for t in sel],
                                "codes": [[t["inp"]["a"], t["inp"]["b"]] for t in sel],
@@ -799,7 +886,7 @@ def run(ctx):
         step = 6
         for k in range(0, len(order), step):
             sel = [pairs[i] for i in order[k:k + step]]
-            run_l2_conv(ctx, {"kind": "l2_conv", "conv": conv, "disturb": pick_disturb(rng, 0.3),
+            run_l2_conv(ctx, {"kind": "l2_conv", "conv": conv, "disturb": pick_disturb(rng, 0.3), "storage": rng.choice(inputforms.FORMS[:6]),
                               "ea": [conv_euler_for_code(conv, t["inp"]["a"], rng) for t in sel],
                               "eb": [conv_euler_for_code(conv, t["inp"]["b"], rng) for t in sel],
                               "codes": [[t["inp"]["a"], t["inp"]["b"]] for t in sel], "expected": [t["out"] for t in sel]})
@@ -808,19 +895,24 @@ def run(ctx):
     for t in batches:
         for r in range(ctx.pick(1, 3)):
             eul = [geo.euler_for_code(c, rng if r else None) for c in t["inp"]["rots"]]
+            n_ = len(eul)
             run_l2_batch(ctx, {"kind": "l2_batch", "euler": eul, "codes": t["inp"]["rots"],
-                               "expected": t["out"]["normals"]})
+                               "expected": t["out"]["normals"], "storage": inputforms.pick(rng, eul, containers=True),
+                               "plot": n_ >= 100 or rng.random() < 0.04})
     # ---- L2 normals: singly (array / DataFrame), and all of them in one call
     for t in normals:
         for form in ("array", "frame", "int64", "int32", "frame_int"):
             for order in ("zxz", "zzx"):
                 run_l2_normals(ctx, {"kind": "l2_normal", "form": form, "order": order, "vecs": [t["inp"]["v"]],
+                                     "storage": inputforms.pick(rng, [[x / geo.U for x in t["inp"]["v"]]]),
+                                     "frame_k": rng.randrange(1200),
                                      "expected": [t["out"]["zaxis"]], "npseed": rng.randrange(2 ** 31)})
-    for r in range(ctx.pick(4, 12)):
+    for r in range(ctx.pick(12, 36)):
         order = list(range(len(normals)))
         rng.shuffle(order)
         sel = [normals[i] for i in order[:rng.randint(2, len(order))]]
-        run_l2_normals(ctx, {"kind": "l2_normal", "form": ["array", "frame", "int64", "frame_int"][r % 4], "order": ["zxz", "zzx"][(r // 2) % 2],
+        run_l2_normals(ctx, {"kind": "l2_normal", "form": ["array", "frame", "int64", "frame_int", "frame", "frame"][r % 6], "order": ["zxz", "zzx"][(r // 2) % 2],
+                             "storage": ["fortran", "noncontiguous", "readonly", "c_float64"][r % 4], "frame_k": rng.randrange(1200),
                              "vecs": [t["inp"]["v"] for t in sel], "expected": [t["out"]["zaxis"] for t in sel],
                              "npseed": rng.randrange(2 ** 31)})
     ctx.exhaustive["L2_batches_and_normals"] = True
@@ -836,6 +928,9 @@ def run(ctx):
     cases += [gen_conv_case(rng, 0) for _ in range(ctx.pick(250, 6000))]
     for c in cases:
         c["disturb"] = pick_disturb(rng, 0.4)
+        if c["kind"] == "l3_batch" and "conv" not in c:
+            c["storage"] = rng.choice(["c_float64", "fortran", "noncontiguous", "readonly"])
+            c["single"] = rng.choice(["1d", "batch1"])
     # call-history independence, measured explicitly: same pair before / after another public call with other options
     for i in range(ctx.pick(250, 5000)):
         c = gen_pair_case(rng, 0, family=rng.choice(["random", "random", "gimbal", "z_equal", "near", "lattice45"]))
